@@ -33,7 +33,7 @@ func CPUSeconds() float64 {
 type Usage struct {
 	CPU        float64 // seconds of process CPU time
 	Alloc      uint64  // bytes allocated (TotalAlloc delta)
-	PeakHeap   uint64  // maximum sampled growth of live heap objects over the start value
+	PeakHeap   uint64  // maximum sampled growth of the GC's live-heap figure over the start value
 	Goroutines int     // goroutines still alive after the case beyond the baseline
 	Leaked     []string
 }
@@ -52,7 +52,9 @@ type Monitor struct {
 	stop      chan struct{}
 }
 
-var heapSample = []metrics.Sample{{Name: "/memory/classes/heap/objects:bytes"}}
+// the bytes marked live by the most recent garbage collection: unlike the heap
+// size it does not count garbage that merely has not been swept yet
+var heapSample = []metrics.Sample{{Name: "/gc/heap/live:bytes"}}
 
 func liveHeap() uint64 {
 	s := make([]metrics.Sample, 1)
